@@ -154,4 +154,21 @@ PROPS['C07'] = {
     'level_note': 'Trusted: as C02.',
 }
 
+FILTER_FUNCS = ['filter_bboxes', 'calculate_bbox_area_volume', 'check_bbox', 'convert_bbox_to_dicaugment',
+                'convert_bbox_from_dicaugment', 'normalize_bbox', 'denormalize_bbox']
+PROPS['C04'] = {
+    'requires': FILTER_FUNCS, 'corr': corr_fn('C04', FILTER_FUNCS, 60, 2500), 'search': 'C04',
+    'trusted_base': ['np.clip / np.isclose modelled as clip / isclose in lib/PyNum.v',
+                     'NumPy float division by zero (inf/nan) is outside the model: theorems assume boxes with positive '
+                     'extent before clipping (what every transform produces from a valid box)'],
+    'assumptions': ['boxes handed to the filter have x_min < x_max, y_min < y_max, z_min < z_max'],
+    'level_text': 'filter_bboxes (regenerated from the source) is proved EQUAL to clip-then-threshold (inclusive '
+                  'thresholds, visibility against the pre-clip box, order preserved) for every box list, frame and '
+                  'threshold setting; every kept box is proved to lie in [0,1]^6 with strictly positive extents and to '
+                  'pass check_bbox, so post-processing cannot raise on it; the processor wiring is a theorem. The two '
+                  'filtering schedules and the output formats are exercised through Compose by the search.',
+    'level_note': 'Trusted: Coq kernel, translator, exact rationals (threshold equality is decided exactly in the model; '
+                  'the implementation-side oracle only uses frames where float arithmetic is exact for equality cases).',
+}
+
 NOT_CLAIMED = {}
